@@ -267,3 +267,14 @@ Proof.
   apply zlist_eqb_eq in Hv2. subst k0. rewrite (all_some_length _ _ E).
   apply Hrows. apply nth_In. lia.
 Qed.
+
+Lemma intersection_blocks_full : forall (ids : list (list (option Z))) (k : nat),
+  (forall r, In r ids -> length r = k) ->
+  NoDup (map fst (block_intersection ids)) /\
+  (forall key vs, In (key, vs) (block_intersection ids) -> length key = k) /\
+  (forall key vs, length key = k ->
+     (In (key, vs) (block_intersection ids) <-> (vs <> [] /\ vs = joint_spec ids key))).
+Proof.
+  intros ids k H. split; [exact (proj1 (intersection_blocks ids k H))|].
+  split; [intros key vs; exact (block_key_length ids k key vs H)|exact (proj2 (intersection_blocks ids k H))].
+Qed.
